@@ -90,12 +90,12 @@ Definition is_newer_than (after : targ) (seconds_us : Z) : M bool :=
   bindM (lift (dt_sub after now)) (fun diff =>
   ret (td_gt diff (td_of_seconds seconds_us)))))).
 
-(* is_soon(dt, window): normalize_time(dt) <= utcnow() + timedelta(seconds=window);
-   no string conversion here: a str argument fails in normalize_time (AttributeError) *)
+(* is_soon(dt, window): a string is parsed first (as in is_older_than); then
+   normalize_time(dt) <= utcnow() + timedelta(seconds=window) *)
 Definition is_soon (t : targ) (window_us : Z) : M bool :=
+  bindM (targ_to_dt t) (fun d =>
   bindM (utcnow false) (fun now =>
   bindM (lift (dt_add_td now (td_of_seconds window_us))) (fun soon =>
-  bindM (lift (as_dt t)) (fun d =>
   bindM (lift (normalize_time d)) (fun n =>
   lift (dt_le n soon))))).
 
